@@ -18,6 +18,9 @@ for _t in BOUNDS.values():
     _t["variants_beyond_the_base_enumeration"] = VARIANTS
 OPTS = {"quick": dict(shadow_every=3, timeout_ms=20000, max_paths=400), "thorough": dict(shadow_every=5, timeout_ms=120000, max_paths=400)}
 KINDS = ["idsm", "sdsm_manual", "sdsm_lapack"]
+# dtype shadow (2.5): the inflow-driven configurations are run once more with the driver stored as whole numbers in an integer array
+# (pieces per year); every result array is created by flodym itself there, so nothing is truncated by the harness
+DTYPE_SHADOW = lambda cfg: cfg.get("kind") == "idsm" and cfg["h"] in ("linear", "impulse", "causal", "labels") and not cfg.get("reuse") and "always"
 REAL = [("FixedLifetime", ["mean"]), ("NormalLifetime", ["mean", "std"]), ("FoldedNormalLifetime", ["mean", "std"]),
         ("LogNormalLifetime", ["mean", "std"]), ("WeibullLifetime", ["weibull_shape", "weibull_scale"])]
 
